@@ -2340,3 +2340,168 @@ func TestVerifC10SuppressHistory(t *testing.T) {
 		c.Sample(map[string]any{"scenario": s.String(), "rounds": hist})
 	})
 }
+
+// ---------------------------------------------------------------- (6) large nodes: the budget meets the number of eligible CPUs
+
+// c10GenLargeScenario aims at the boundary "target == number of eligible CPUs" on large nodes (up to 256 CPUs) where the eligible
+// CPUs are split between an LSR pool (CPUs in LSR pods' cpusets, any size from 1 to eligible-1) and the shared pool.
+func c10GenLargeScenario(t *rapid.T) c10Scenario {
+	s := c10Scenario{Mode: "large-split"}
+	tp := c10Topo{}
+	tp.Sockets = rapid.IntRange(1, 2).Draw(t, "sockets")
+	tp.NodesPerSocket = rapid.IntRange(1, 2).Draw(t, "nodesPerSocket")
+	tp.CoresPerNode = rapid.IntRange(2, 32).Draw(t, "coresPerNode")
+	tp.Threads = rapid.SampledFrom([]int{1, 2, 2}).Draw(t, "threads")
+	tp.Split = rapid.Bool().Draw(t, "splitSiblings")
+	totalCores := tp.Sockets * tp.NodesPerSocket * tp.CoresPerNode
+	nOffline := rapid.IntRange(0, 3).Draw(t, "offlineCPUs")
+	core := 0
+	for si := 0; si < tp.Sockets; si++ {
+		for ni := 0; ni < tp.NodesPerSocket; ni++ {
+			for ci := 0; ci < tp.CoresPerNode; ci++ {
+				for pi := 0; pi < tp.Threads; pi++ {
+					id := core*tp.Threads + pi
+					if tp.Split {
+						id = core + pi*totalCores
+					}
+					tp.Procs = append(tp.Procs, koordletutil.ProcessorInfo{CPUID: int32(id), CoreID: int32(core), SocketID: int32(si), NodeID: int32(si*tp.NodesPerSocket + ni)})
+				}
+				core++
+			}
+		}
+	}
+	for i := 0; i < nOffline && len(tp.Procs) > 4; i++ { // the highest-numbered positions of the list go offline
+		last := tp.Procs[len(tp.Procs)-1]
+		tp.Offline = append(tp.Offline, int(last.CPUID))
+		tp.Procs = tp.Procs[:len(tp.Procs)-1]
+	}
+	c10SortProcs(tp.Procs)
+	s.Topo = tp
+	ids := tp.ids()
+	n := len(ids)
+	s.V2 = rapid.Bool().Draw(t, "cgroupV2")
+	s.Policy = rapid.SampledFrom([]string{"", "none", "static"}).Draw(t, "kubeletPolicy")
+
+	// owners are carved as contiguous blocks of the id list, starting at a random rotation
+	rot := rapid.IntRange(0, n-1).Draw(t, "ownerRotation")
+	pool := append(append([]int(nil), ids[rot:]...), ids[:rot]...)
+	take := func(k int) []int {
+		out := append([]int(nil), pool[:k]...)
+		pool = pool[k:]
+		return out
+	}
+	if r := rapid.IntRange(0, c10Min(4, n/4)).Draw(t, "reservedCPUs"); r > 0 {
+		s.HasReserved = true
+		s.Reserved = take(r)
+	}
+	if l := rapid.IntRange(0, c10Min(8, n/4)).Draw(t, "lseCPUs"); l > 0 {
+		s.Pods = append(s.Pods, c10SPod{Name: "lse0", QoS: "LSE", CPUs: take(l), Anno: "ok"})
+	}
+	e := len(pool) // eligible
+	lsr := rapid.IntRange(1, e-1).Draw(t, "lsrPoolSize")
+	nPods := rapid.IntRange(1, c10Min(3, lsr)).Draw(t, "lsrPods")
+	for i := 0; i < nPods; i++ {
+		k := lsr / nPods
+		if i == nPods-1 {
+			k = lsr - (lsr/nPods)*(nPods-1)
+		}
+		s.Pods = append(s.Pods, c10SPod{Name: fmt.Sprintf("lsr%d", i), QoS: "LSR", CPUs: take(k), Anno: "ok"})
+	}
+	s.BEDirs = []string{"pod0"}
+	s.BEContainers = []string{filepath.Join("pod0", "ctr0")}
+	if rapid.Bool().Draw(t, "oldIsEverything") {
+		s.Old = append([]int(nil), ids...)
+	} else { // the BE cgroups currently hold exactly the eligible CPUs
+		lse, reserved, _ := s.protected()
+		for _, id := range ids {
+			if !lse[id] && !reserved[id] {
+				s.Old = append(s.Old, id)
+			}
+		}
+	}
+	return s
+}
+
+func TestVerifC10LargeSplit(t *testing.T) {
+	c10Quiet()
+	rec := vk.New(t, "C10", "largeSplit")
+	helper := system.NewFileTestUtil(t)
+	defer helper.Cleanup()
+	base := helper.TempDir
+	defer func() { system.Conf.CgroupRootDir = base }()
+	caseNo := 0
+	beRoot := koordletutil.GetPodQoSRelativePath(corev1.PodQOSBestEffort)
+	rapid.Check(t, func(t *rapid.T) {
+		c := rec.Begin()
+		defer c.End()
+		caseNo++
+		root := filepath.Join(base, fmt.Sprintf("case%d", caseNo))
+		system.Conf.CgroupRootDir = root
+		defer os.RemoveAll(root)
+
+		s := c10GenLargeScenario(t)
+		helper.SetCgroupsV2(s.V2)
+		exec := c10NewExec()
+		env := c10NewSetEnv(s, beRoot, exec)
+		n := len(env.ids)
+		e := len(env.eligible)
+		if err := env.prepare(); err != nil {
+			t.Fatalf("harness: cannot prepare cgroup dir: %v", err)
+		}
+		lsrOwned := map[int]bool{}
+		for _, p := range s.Pods {
+			if p.QoS == "LSR" {
+				for _, id := range p.CPUs {
+					lsrOwned[id] = true
+				}
+			}
+		}
+		lsr := len(lsrOwned)
+		inf := s.buildInformer()
+		info := &metriccache.NodeCPUInfo{ProcessorInfos: append([]koordletutil.ProcessorInfo(nil), s.Topo.Procs...)}
+		r := &CPUSuppress{
+			statesInformer:         inf,
+			metricCache:            &c10MetricCache{info: info},
+			executor:               exec,
+			cgroupReader:           resourceexecutor.NewCgroupReader(),
+			suppressPolicyStatuses: map[string]suppressPolicyStatus{},
+		}
+		stop := make(chan struct{})
+		defer close(stop)
+		r.init(stop)
+
+		oldStr, oldN := env.readOld(t)
+		milli := int64(e)*1000 + int64(rapid.SampledFrom([]int{0, 0, 0, 0, -1, -999, -1000, -2000, 1}).Draw(t, "budgetDelta"))
+		want, unlimited, step := c10Target(milli, oldN, n)
+		where := fmt.Sprintf("budget=%dm old=%q(%d cpus) processors=%d step=%d target=%d eligible=%d(%s) of which in LSR pods' cpusets=%d",
+			milli, oldStr, oldN, n, step, want, e, c10FmtSet(env.eligible), lsr)
+		c.Class("kubelet-policy:" + s.Policy)
+		c.ClassIf(s.V2, "cgroup-v2")
+		c.ClassIf(want == e, "target-equals-eligible")
+		c.ClassIf(want == e-1, "target-one-below-eligible")
+		c.ClassIf(want > e, "target-above-eligible")
+		c.ClassIf(n >= 64, "64-or-more-processors")
+		c.ClassIf(n >= 128, "128-or-more-processors")
+		c.ClassIf(e%2 == 1, "odd-eligible-count")
+		c.ClassIf(len(s.Pods) > 2, "several-lsr-pods")
+		// shape counter only (not used by the oracle): target x (lsr/eligible) is not exactly representable going through a float ratio
+		c.ClassIf(want == e && float64(e)*(float64(lsr)/float64(e)) != float64(lsr), "lsr-share-inexact-as-float-ratio")
+		if want == e && n >= 32 {
+			c.NonTrivial(s.String(), milli)
+		}
+		var pnc any
+		func() {
+			defer func() { pnc = recover() }()
+			r.adjustByCPUSet(resource.NewMilliQuantity(milli, resource.DecimalSI), info)
+		}()
+		if pnc != nil {
+			c.Violation(t, "cpuset:panic", "adjustByCPUSet panicked: %v; %s; scenario: %s", pnc, where, s)
+			return
+		}
+		result, abandon := env.observeSuppressed(t, c, where, nil, want, unlimited, step, oldN)
+		if abandon {
+			return
+		}
+		c.Sample(map[string]any{"scenario": fmt.Sprintf("processors=%d eligible=%d lsrPool=%d policy=%q v2=%v", n, e, lsr, s.Policy, s.V2), "round": where + " -> " + result})
+	})
+}
